@@ -294,6 +294,55 @@ def is_self_mutation(e):
     return False
 
 
+def _check_reported_variant(ctx, F, b, paths):
+    """The exit taken when the model has no entry for the symbol reports the *impossible-symbol* error (the public variant
+    `ImpossibleSymbol` of the coder's front-end error type), not a sibling variant: callers tell "this symbol cannot be
+    encoded" from "the coder ran out of remainders / the backend failed" by the variant."""
+    key = 'R2/impossible-symbol-variant/' + b.defpath
+    role = 'a missing model entry is reported as ImpossibleSymbol'
+    is_lookup = lambda x: isinstance(x, tuple) and x and x[0] == 'call' and str(x[1]).endswith(LOOKUP)
+    names_variant = lambda t: sym.contains(t, lambda x: isinstance(x, tuple) and x and x[0] == 'agg' and isinstance(x[1], tuple) and x[1][0] == 'adt' and x[1][2] == 'ImpossibleSymbol')
+    verdict = None
+    n = 0
+    for r in paths or []:
+        if r.end != 'return' or outcome_of(r.ret) != 'reject':
+            continue
+        # the rejecting arm of the lookup
+        took_none = False
+        for e in r.events:
+            if e['kind'] == 'branch' and e['term'][0] == 'discr' and sym.contains(e['term'][1], is_lookup):
+                took_none = sym.discr_variant(e['term'], e['value']) in ('Break', 'None', 'Err')
+                break
+        if not took_none:
+            continue
+        n += 1
+        err = None
+        t = r.ret
+        while isinstance(t, tuple) and t and t[0] == 'err_of':
+            t = t[1]
+        if isinstance(t, tuple) and t and t[0] == 'call' and str(t[1]).endswith(('Option::<T>::ok_or', 'Option::<T>::ok_or_else')) and len(t[2]) == 2:
+            err = t[2][1]
+            if err[0] == 'agg' and isinstance(err[1], tuple) and err[1][0] == 'closure':
+                cb = F.by_def.get(err[1][1])
+                _, cp = rules.evaluate(cb) if cb is not None else (None, None)
+                rs = [x for x in cp or [] if x.end == 'return']
+                err = rs[0].ret if len(rs) == 1 else None
+        elif isinstance(t, tuple) and t and t[0] == 'agg':
+            err = t
+        if err is None:
+            verdict = verdict or ('unresolved', 'the error value of the rejecting exit is not a literal, ok_or(..) or ok_or_else(|| ..)')
+        elif not names_variant(err):
+            verdict = ('bad', 'the rejecting exit of the model lookup returns %s, which is not the ImpossibleSymbol variant: the caller is told something else went wrong (and may e.g. give up instead of skipping the symbol)' % sym.show(err)[:120])
+    if n == 0:
+        return      # reported by the lookup-before-mutation rule
+    if verdict and verdict[0] == 'bad':
+        ctx.bad('R2', role, b.defpath, verdict[1], key=key, loc=rules.loc(b))
+    elif verdict:
+        ctx.unresolved('R2', role, b.defpath, verdict[1], key=key)
+    else:
+        ctx.ok('R2', role, b.defpath, '%d rejecting exit(s) of the lookup name the ImpossibleSymbol variant' % n, key=key)
+
+
 def check_coders(ctx, F):
     coders = [b for b in F.bodies if b.promoted is None and b.name == 'encode_symbol' and b.impl_trait == 'stream::Encode' and b.dk == 'AssocFn'
               and not b.defpath.startswith('<pybindings')]
@@ -355,6 +404,7 @@ def check_coders(ctx, F):
                     if i_mut is not None:
                         bad = 'a front-end rejection is returned after the coder was modified (%s at %s)' % (_what(evs[i_mut]), evs[i_mut].get('span', '?').split('-')[0])
                         break
+        _check_reported_variant(ctx, F, b, paths)
         if bad:
             ctx.bad('R2', role, b.defpath, bad, key=key, loc=rules.loc(b))
         elif n_reject == 0:
